@@ -20,7 +20,7 @@ PID = "C19"
 THEOREMS = ["hint_roundtrip", "writeTo_too_long", "enc_bytes", "payload_magic_safe", "one_mapping_per_hint",
             "chunking_independent", "chunking_independent'", "code_split", "hints_removed", "output_magic_free",
             "positions_exact", "positions_exact_init", "columns_units", "columns_units_needs_ascii",
-            "placeAt_correct", "offset_js", "offset_js_points_at_text", "offset_js_line",
+            "placeAt_correct", "offset_js", "offset_js_points_at_text",
             "pending_flushed_by_write", "write_without_pending", "setPos_last_wins", "every_setpos_reported_counterexample", "printf_hint_first",
             "catch_restores", "stmt_position_exact", "alternating_positions_reported", "stmts_all_mapped",
             "rwItems_sub", "minify_keeps_mappings", "offset_js_counterexample_before_repair"]
@@ -565,8 +565,7 @@ class ProgGen:
                     self.emit(3, "%s" % call)
                 else:
                     l = self.emit(1, "if %s > 0 {" % call)
-                    if not self.blocking:          # an `if` around a blocking call is flattened and keeps its position
-                            self.emit(2, "v = 1")
+                    self.emit(2, "v = 1")
                     self.emit(1, "}")
                 self.chain.append(l)
             self.prev_recv = recv
